@@ -84,7 +84,9 @@ pub enum Op {
     IssuerHandsAdminToService { slot: u8 },
     /// somebody (signing nothing, or signing only the outermost call as a stranger) names the token service itself as the
     /// payer of a remote canonical deployment (how 0) or as the sender of a transfer (how 1), with the gas stated in a
-    /// canonical asset the service holds in custody: custody is what users locked, it must not be spent
+    /// canonical asset the service holds in custody: custody is what users locked, it must not be spent. how 2: a transfer
+    /// of that canonical asset naming the service as sender, the gas stated in a token anybody could deploy (its
+    /// `transfer` asks nobody): nothing can be taken from the sender into custody, so it cannot be a transfer
     ServiceNamedAsPayer { slot: u8, chain: u8, amount: Amt, how: u8, stranger_signs: bool },
 }
 
@@ -131,7 +133,7 @@ fn op() -> impl Strategy<Value = Op> {
         1 => Just(Op::UpgradeAndMigrate),
         1 => (0u8..2).prop_map(|slot| Op::RegisterDeployedAsCanonical { slot }),
         1 => (0u8..2).prop_map(|slot| Op::IssuerHandsAdminToService { slot }),
-        1 => (0u8..2, 0u8..3, prop_oneof![Just(Amt::One), Just(Amt::Custody), (2u8..30).prop_map(Amt::Small)], 0u8..2, any::<bool>()).prop_map(|(slot, chain, amount, how, stranger_signs)| Op::ServiceNamedAsPayer { slot, chain, amount, how, stranger_signs }),
+        1 => (0u8..2, 0u8..3, prop_oneof![Just(Amt::One), Just(Amt::Custody), (2u8..30).prop_map(Amt::Small)], 0u8..3, any::<bool>()).prop_map(|(slot, chain, amount, how, stranger_signs)| Op::ServiceNamedAsPayer { slot, chain, amount, how, stranger_signs }),
     ]
 }
 
@@ -449,7 +451,13 @@ impl Property for C05 {
                         };
                         let gas_token = Token { address: t.addr.clone(), amount: a };
                         let stranger = Address::generate(env);
-                        let (f, args): (&str, soroban_sdk::Vec<soroban_sdk::Val>) = if how % 2 == 0 {
+                        let (f, args): (&str, soroban_sdk::Vec<soroban_sdk::Val>) = if how % 3 == 2 {
+                            let lax = env.register(crate::probes::LaxToken, ());
+                            (
+                                "interchain_transfer",
+                                (w.its.id.clone(), BytesN::from_array(env, &t.id), sstr(env, CHAINS[c]), Bytes::from_slice(env, &[7, 7]), a, Option::<Bytes>::None, Token { address: lax, amount: 1 }).into_val(env),
+                            )
+                        } else if how % 3 == 0 {
                             ("deploy_remote_canonical_token", (t.addr.clone(), sstr(env, CHAINS[c]), w.its.id.clone(), gas_token.clone()).into_val(env))
                         } else {
                             (
@@ -482,6 +490,15 @@ impl Property for C05 {
                             custody,
                             held
                         );
+                        if ok && how % 3 == 2 {
+                            return Err(format!(
+                                "step {}: an outbound transfer of {} of canonical token {} naming the token service itself as sender, authorised by {}, was accepted and announced: nothing was taken from a sender into custody, the announced amount is backed by what other users locked",
+                                step,
+                                a,
+                                ti,
+                                if *stranger_signs { "a stranger" } else { "nobody" }
+                            ));
+                        }
                         if ok {
                             cx.count("either");
                             // (whatever was accepted moved nothing the model tracks: checked by the sweep below)
